@@ -1,6 +1,13 @@
 CHECK = {
     "level": "model_checking",
-    "rule": ("part tsan: every assignment of 3 events to 2 streams (8) and to 3 streams (27), plus one "
+    "rule": ("part sched: T in {2,3} threads, each constructing its Stepper on one shared CoreParams and "
+             "transporting its events, run one at a time under a cooperative scheduler; scheduling points = "
+             "CELERITAS_VERIF hooks (before every begin-run/step action, around the lazy StreamStore "
+             "allocation, inside host atomic read-modify-writes; per-thread budgets on the hot ones) and "
+             "every pthread mutex lock/unlock (interposed); ALL schedules with <= B preemptions (quick 1, "
+             "thorough 2) for every assignment of 3 events to the streams that uses >= 2 streams, x "
+             "{recorder+diagnostics, calorimeter+diagnostics}; oracle = serial single-stream results. "
+             "part tsan: every assignment of 3 events to 2 streams (8) and to 3 streams (27), plus one "
              "event per stream for 4, 8 and 16 streams, x two scoring variants (recorder + diagnostics; "
              "SimpleCalo + diagnostics), each repeated with free-running threads that construct their "
              "Steppers concurrently on one shared CoreParams, under ThreadSanitizer. "
@@ -11,8 +18,12 @@ CHECK = {
         "part",
         "memory orderings weaker than sequential consistency are not modelled",
     ],
-    "bounds": {"quick": {"repetitions": 2}, "thorough": {"repetitions": 10}},
+    "bounds": {"quick": {"preemptions": 1, "tsan_repetitions": 2},
+               "thorough": {"preemptions": 2, "tsan_repetitions": 10}},
     "parts": [
+        {"name": "sched", "harness": "c07_sched", "flavour": "rel",
+         "shards": {"quick": 16, "thorough": 16}, "deadline": {"quick": 100, "thorough": 1200},
+         "ldflags": ["-ldl"]},
         {"name": "tsan", "harness": "c07_streams", "flavour": "tsan",
          "shards": {"quick": 8, "thorough": 8}, "deadline": {"quick": 150, "thorough": 1200},
          "env": {"TSAN_OPTIONS": "halt_on_error=0 report_signal_unsafe=0 second_deadlock_stack=1 "
